@@ -118,7 +118,11 @@ func sampleOf(sc *Scenario, f *runFacts) any {
 func TestC01(t *testing.T) {
 	rec := NewRecorder("C01", "C01", "rapid scenarios (variant x TTL range x id bases x timings x world) with 0..12 packets from the must-reject perturbation lattice; non-trivial = run reported >=1 non-empty hop AND >=1 must-reject packet was returned by Read during the run; distinct by scenario hash")
 	RunProp(t, rec, func(rt *rapid.T) *Scenario {
-		return GenScenario(rt, GenOpts{Noise: 12, Forms: true, Dups: true, MaxSpan: 40})
+		sc := GenScenario(rt, GenOpts{Noise: 12, Forms: true, Dups: true, MaxSpan: 40})
+		// the capture filter is "purely a performance optimization" (no-op on other platforms): half of the
+		// cases bypass it so that the matchers themselves see the wrong-tuple perturbations
+		sc.FiltersOff = rapid.Bool().Draw(rt, "filters_off")
+		return sc
 	}, checkC01)
 }
 
@@ -161,6 +165,7 @@ func TestC01Sweep(t *testing.T) {
 								}
 							}
 							sc.Noise = []NoiseItem{{Anchor: anchor, Kind: k, Arg: arg, DelayUs: d}}
+							sc.FiltersOff = true // the matcher itself must reject it, with or without a capture filter
 							if !yield(&sc) {
 								return
 							}
@@ -325,7 +330,9 @@ func checkC04(t *testing.T, sc *Scenario, rec *Recorder) []Diff {
 func TestC04(t *testing.T) {
 	rec := NewRecorder("C04", "C04", "rapid scenarios enriched with destination-form replies from the wrong place (echo reply with the run's id/seq from a foreign host, SYN-ACK/RST from another address or port, SACK from the wrong address, unreachable from routers) and time-exceeded sent by the target itself; non-trivial = such a packet was returned by Read during the run; distinct by scenario hash")
 	RunProp(t, rec, func(rt *rapid.T) *Scenario {
-		return GenScenario(rt, GenOpts{Noise: 6, Forms: true, WrongPlace: true, Dups: true, MaxSpan: 30, OwnWindow: true})
+		sc := GenScenario(rt, GenOpts{Noise: 6, Forms: true, WrongPlace: true, Dups: true, MaxSpan: 30, OwnWindow: true})
+		sc.FiltersOff = rapid.Bool().Draw(rt, "filters_off")
+		return sc
 	}, checkC04)
 }
 
